@@ -255,10 +255,14 @@ func TestVerifReplay(t *testing.T) {
     # concrete validation on the real build (standard vector + random)
     rows = []
     sp = special_pubs()
-    for i in range(7):
-        L = [16, 0, 55, 8191, 16, 32, 100][i]
+    # the symbolic part treats the sm3 object as an uninterpreted digest (assumption above); the id lengths 0..129 put the ZA
+    # preimage into every residue class mod 64 of the SM3 padding twice, so that a padding defect of the real object shows here
+    zl = [16, 0, 55, 8191, 16, 32, 100] + list(range(0, 130))
+    pub0 = ref.mul(ck.rng.randrange(1, N - 1))
+    for i in range(len(zl)):
+        L = zl[i]
         idv = [ck.rng.randrange(256) for _ in range(L)]
-        pub = ref.mul(ck.rng.randrange(1, N - 1)) if i < 4 else sp[i - 3]
+        pub = (pub0 if i >= 7 else ref.mul(ck.rng.randrange(1, N - 1))) if (i < 4 or i >= 7) else sp[i - 3]
         rows.append('{%s,%s,%s,%s},' % (go_bytes(idv), go_bytes(b32(pub[0])), go_bytes(b32(pub[1])), go_bytes(list(ref.za(bytes(idv), pub[0], pub[1])))))
     src = '''package sm2
 import ("testing"; "bytes")
@@ -273,10 +277,54 @@ func TestVerifReplay(t *testing.T) {
 }''' % '\n'.join(rows)
     ok, out, path = ck.go_test('sm2', src, name='validate')
     if ok is True:
-        ck.validated += 7
+        ck.validated += len(zl)
     elif ok is False:
         ck.record('reference_za', 'violated', 'ZA on the real build differs from the reference (real SM3 + real ZA): ' + (out or '')[-200:].replace('\n', ' '))
         ck.violation('ZA.reference', 'ZA differs from the reference on concrete ids', path)
+    # message-level entry points over every residue class of the hashed length ZA||M (message lengths 0..129): signatures
+    # computed by the reference (specs/sm2.py + specs/sm3.py) must be what Sign/SignZa produce and what Verify/VerifyZa accept
+    dv = ck.rng.randrange(1, N - 1)
+    pubm = ref.mul(dv)
+    idm = list(b'1234567812345678')
+    zam = ref.za(bytes(idm), pubm[0], pubm[1])
+    kv = ck.rng.randrange(1, N)
+    x1 = ref.mul(kv)[0]
+    mrows = []
+    for ML in range(0, 130):
+        mv = [ck.rng.randrange(256) for _ in range(ML)]
+        ev = int.from_bytes(sm3spec.digest(zam + bytes(mv)), 'big')
+        r_ = (ev + x1) % N
+        if r_ == 0 or r_ + kv == N:
+            continue
+        s_ = pow(1 + dv, -1, N) * (kv - r_ * dv) % N
+        if s_ == 0:
+            continue
+        mrows.append('{%s,%s,%s},' % (go_bytes(mv), go_bytes(b32(r_)), go_bytes(b32(s_))))
+    src = '''package sm2
+import ("testing"; "bytes")
+type verifReaderM struct{ b []byte; used int }
+func (r *verifReaderM) Read(p []byte) (int, error) { if r.used >= len(r.b) { for i := range p { p[i] = 0x5a }; r.used += len(p); return len(p), nil }; n := copy(p, r.b[r.used:]); r.used += n; return n, nil }
+func TestVerifReplay(t *testing.T) {
+	id, px, py, priv, k := %s, %s, %s, %s, %s
+	za, err := ZA(id, px, py); if err != nil { t.Fatal(err) }
+	cases := []struct{ msg, r, s []byte }{
+%s
+	}
+	for _, c := range cases {
+		if ok, err := Verify(id, px, py, c.msg, c.r, c.s); !ok || err != nil { t.Fatalf("Verify rejects the reference signature of a %%d-byte message", len(c.msg)) }
+		if ok, err := VerifyZa(px, py, za, c.msg, c.r, c.s); !ok || err != nil { t.Fatalf("VerifyZa rejects the reference signature of a %%d-byte message", len(c.msg)) }
+		r, s, err := Sign(id, px, py, &verifReaderM{b: k}, priv, c.msg)
+		if err != nil || !bytes.Equal(r, c.r) || !bytes.Equal(s, c.s) { t.Fatalf("Sign differs from the reference for a %%d-byte message", len(c.msg)) }
+		r, s, err = SignZa(&verifReaderM{b: k}, priv, za, c.msg)
+		if err != nil || !bytes.Equal(r, c.r) || !bytes.Equal(s, c.s) { t.Fatalf("SignZa differs from the reference for a %%d-byte message", len(c.msg)) }
+	}
+}''' % (go_bytes(idm), go_bytes(b32(pubm[0])), go_bytes(b32(pubm[1])), go_bytes(b32(dv)), go_bytes(b32(kv)), '\n'.join(mrows))
+    ok, out, path = ck.go_test('sm2', src, name='validate_msg')
+    if ok is True:
+        ck.validated += len(mrows)
+    elif ok is False:
+        ck.record('reference_msg', 'violated', 'message-level entry points differ from the reference (standard SM3 over ZA||M): ' + (out or '')[-200:].replace('\n', ' '))
+        ck.violation('wrappers.reference', 'Sign/SignZa/Verify/VerifyZa differ from the reference on concrete messages (every residue of the hashed length mod 64)', path)
     ck.finish()
 
 
